@@ -273,7 +273,7 @@ def gen_shape_cases(ctx, rng, names):
     shapes = list(SHAPES_BASE) + [rand_shape(rng) for _ in range(6 if ctx.tier == "quick" else 40)]
     cases = []
     for name in names:
-        for shape in rng.sample(shapes, 20 if ctx.tier == "thorough" else 9):
+        for shape in rng.sample(shapes, 14 if ctx.tier == "thorough" else 9):
             for axes in subsets(len(shape), rng, limit=7 if ctx.tier == "thorough" else 5):
                 for level in LEVELS:
                     cases.append(dict(wavelet=name, shape=list(shape), axes=None if axes is None else list(axes), level=level))
@@ -634,7 +634,7 @@ def check_oracle(ctx, c, origin):
 def gen_oracle_cases(ctx, rng, names, budget):
     shapes = list(SHAPES_BASE) + [rand_shape(rng) for _ in range(int(6 * budget))]
     cases = []
-    per = max(3, min(int(8 * budget), 24))
+    per = max(3, min(int(8 * budget), 12))   # thorough: all 75 wavelets x 12 shapes (≈ 3 min on this machine)
     import pywt
     for name in names:
         L = pywt.Wavelet(name).dec_len
